@@ -498,7 +498,7 @@ def parallel_block(stmts, env0, np_param, params, what):
     # for which the theorems of C15 do not hold
     for n in ast.walk(with_stmt):
         if isinstance(n, (ast.Name, ast.Attribute)) and ast.unparse(n).split(".")[-1] == "as_completed":
-            return ex, rule, None, None, "completion"
+            return ex, rule, None, env, "completion"
     for n in ast.walk(with_stmt):
         if isinstance(n, (ast.Name, ast.Attribute)) and ast.unparse(n).split(".")[-1] in ("submit", "wait"):
             raise TranslateError(f"{what}: results are gathered through {ast.unparse(n)}, not through executor.map")
@@ -675,9 +675,18 @@ def from_storage_facts(em: ast.Module, locate_sig):
     # ---- parallel branch
     ex, rule, target, expr, how = parallel_block(st[0].orelse, {}, np_param, params, what)
     if how == "completion":
+        # the worker is still a functools.partial(locate_droplets, ...) bound to a local name
+        parts = [v for v in expr.values() if call_name(v) == "functools.partial" and v.args
+                 and ast.unparse(v.args[0]) == "locate_droplets" and len(v.args) == 1]
+        if len(parts) != 1:
+            raise TranslateError(f"{what}: completion-order gathering with an unrecognised worker")
+        fake = ast.Call(func=parts[0].args[0], args=[ast.Name(id="_frame", ctx=ast.Load())], keywords=parts[0].keywords)
+        pb, pstar = bind_call(fake, lsig, lnpos, lkw, what + ": partial(locate_droplets)")
+        pb.pop(first)
+        par_fw, par_star = forward_table(pb, pstar, None, params, kwarg, what + " (parallel)")
         return dict(params=params, defaults=defaults, kwargs=kwarg or "", np_param=np_param, serial_n=serial_n,
-                    ser_iter=ser_iter, par_iter="", ser_fw=ser_fw, ser_star=ser_star, par_fw=[], par_star=False,
-                    rule=rule, gather="GatherCompletion", times_from=times_from)
+                    ser_iter=ser_iter, par_iter="", ser_fw=ser_fw, ser_star=ser_star, par_fw=par_fw,
+                    par_star=par_star, rule=rule, gather="GatherCompletion", times_from=times_from)
     if target != result:
         raise TranslateError(f"{what}: parallel branch does not assign the result")
     if not (call_name(expr) == "list" and len(expr.args) == 1 and not expr.keywords):
